@@ -105,22 +105,27 @@ def run(tier, replay_file=None):
     # whatever is cached per file or per process is shared by the instances
     sets.append((hl, "files"))
     sets.append((sets[0][0][:6], "files"))
+    # ... and on a server whose factory registers ONE Model object, built once, with every instance (a module-level model)
+    sets.append((hl, "shared"))
+    sets.append((hb[::max(1, len(hb) // 40)] if quick else hb, "shared"))
+    R.cov["shared_model_object_histories"] = len(sets[-1][0]) + len(sets[-2][0])
     compared = 0
     for hs, bc in sets:
-        files = bc == "files"
-        bc = True if files else bc       # the file lists the scenario's constants, so a parsed-file cache would hand out ONE dictionary
+        files, shared = bc == "files", bc == "shared"
+        bc = True if files else False if shared else bc       # the file lists the scenario's constants, so a parsed-file cache would hand out ONE dictionary
         for hist in hs:
             obs = []
-            bad = srv_replay.replay(hist, stop=3, adapter=False, base_constants=bc, observe=obs, files=files)
+            bad = srv_replay.replay(hist, stop=3, adapter=False, base_constants=bc, observe=obs, files=files, shared=shared)
             R.add("traces_validated_against_impl")
             if bad:
                 bad["scenarios_from_files"] = files
+                bad["one_model_object_for_all_instances"] = shared
                 R.violation(bad["clause"], bad)
                 continue
             for i in sorted({h["i"] for h in hist if "i" in h}):
                 sub = solo(hist, i)
                 obs1 = []
-                bad = srv_replay.replay(sub, stop=3, adapter=False, base_constants=bc, observe=obs1, files=files)
+                bad = srv_replay.replay(sub, stop=3, adapter=False, base_constants=bc, observe=obs1, files=files, shared=shared)
                 R.add("solo_replays")
                 if bad:
                     bad["solo_of"] = i
